@@ -28,6 +28,7 @@ type Scenario struct {
 	Kind   string   `json:"kind"` // adv, honest
 	Mech   string   `json:"mech"`
 	Script []string `json:"script"`
+	// Prior ("authobjok": like "authobj", but the earlier exchange of the caller's Auth object was complete and successful)
 	// Prior: "" - one smtp.Client.Auth call with the caller's Auth object; "client" - a mail.Client with a built-in SCRAM type
 	// that has completed a valid exchange on an earlier connection (same server identity) before the scripted one
 	Prior  string   `json:"prior"`
@@ -324,8 +325,8 @@ func (rn *Runner) Run() {
 			rn.runAdvThroughClient(cfg)
 			break
 		}
-		if sc.Prior == "authobj" {
-			rn.runAdvSameAuthObject(cfg)
+		if sc.Prior == "authobj" || sc.Prior == "authobjok" {
+			rn.runAdvSameAuthObject(cfg, sc.Prior == "authobjok")
 			break
 		}
 		cfg.Auth = func(st *tls.ConnectionState) refsmtp.AuthHandler {
@@ -399,9 +400,10 @@ func (rn *Runner) runAdvThroughClient(cfg refsmtp.Config) {
 	}
 }
 
-// runAdvSameAuthObject: the caller's Auth object has been through an exchange that FAILED at the server signature; it is
-// used again on a new connection, where the adversary replays what it remembers of the first one.
-func (rn *Runner) runAdvSameAuthObject(cfg refsmtp.Config) {
+// runAdvSameAuthObject: the caller's Auth object has been through an exchange that FAILED at the server signature (or, with
+// firstOK, through a complete and successful one); it is used again on a new connection, where the adversary replays what
+// it remembers of the first one.
+func (rn *Runner) runAdvSameAuthObject(cfg refsmtp.Config, firstOK bool) {
 	sc, r := rn.Sc, rn.Rec
 	shared := &adv{rn: rn, salt: []byte("adv-salt-" + fmt.Sprint(rn.T))}
 	var script []string
@@ -415,13 +417,16 @@ func (rn *Runner) runAdvSameAuthObject(cfg refsmtp.Config) {
 	}
 	auth := mechAuth(sc.Mech, advUser, advPass, nil)
 	script = []string{"empty", "validFirst", "otherFinal"}
+	if firstOK {
+		script = []string{"empty", "validFirst", "validFinal", "ok235"}
+	}
 	c1, srv1, _, err := rn.connect(cfg, "")
 	if err != nil {
 		rn.Infra = err
 		return
 	}
-	if aerr := c1.Auth(auth); aerr == nil {
-		rn.Infra = fmt.Errorf("the first exchange (forged server signature) did not fail")
+	if aerr := c1.Auth(auth); (aerr == nil) != firstOK {
+		rn.Infra = fmt.Errorf("the first exchange (valid: %v) ended unexpectedly: %v", firstOK, aerr)
 		return
 	}
 	_ = c1.Close()
